@@ -1027,6 +1027,36 @@ def ck11(p, res):
     return n
 
 
+def ck15(p, res):
+    """an operation that returns a new owned ciphertext built from a ciphertext parameter allocates it with that parameter's rank: the function reads `rank()` of the source
+    (directly or through `alloc_from_infos(&src)` / a layout built from it); `CKKSCiphertext::alloc` hard-codes rank 1"""
+    T2 = T + ("to_ref", "to_mut")
+    n = 0
+    for f in sorted(p.lib_fns(), key=lambda x: x.uid):
+        if f.kind == "Closure" or not f.blocks or not f.uid.startswith("poulpy_ckks::") or f.is_test():
+            continue
+        ret = f.local_ty(0).get("s", "")
+        if "CKKSCiphertext<std::vec::Vec<u8>>" not in ret.replace("alloc::vec::Vec", "std::vec::Vec"):
+            continue
+        srcs = [l for l in range(1, f.argc + 1) if "CKKSCiphertext" in f.local_ty(l).get("s", "")]
+        if not srcs:
+            continue
+        allocs = [(bi, t) for bi, t in f.calls() if (f.callee_def(t) or {}).get("n") in ("alloc", "alloc_from_infos") and "CKKSCiphertext" in (f.callee_def(t) or {}).get("p", "")]
+        if not allocs:
+            continue            # forwarders
+        n += 1
+        flow = Flow(f, transparent=T2)
+        reads_rank = any((f.callee_def(t) or {}).get("n") == "rank" and t["a"] and any(r[0] == "param" and r[1] in srcs for r in flow.op_roots(t["a"][0])) for _, t in f.calls())
+        from_infos = any((f.callee_def(t) or {}).get("n") == "alloc_from_infos" and t["a"] and any(r[0] == "param" and r[1] in srcs for r in flow.op_roots(t["a"][-1])) for _, t in allocs)
+        if reads_rank or from_infos:
+            res.ok("CK-15", {"fn": f.pretty})
+        else:
+            res.bad("CK-15", f.pretty, "owned-result-rank",
+                    "%s returns a new ciphertext built from its ciphertext parameter and allocates it without consulting that parameter's rank (CKKSCiphertext::alloc is rank 1): for a "
+                    "rank-2 source the raw limbs are copied into a rank-1 object and Ok is returned" % f.pretty, site=f.where(allocs[0][1]["l"]))
+    return n
+
+
 def ck14(p, res):
     """never panics on a constant finer than the ciphertext: a limb accessor `X.at_mut(c, i)` whose index is the counter of `enumerate()` over another container (the digits of
     an encoded constant) is bounded by the object - the iterator chain contains `take(..)` / `zip(..)`, or the index is compared with `size()` on a dominating branch"""
@@ -1117,6 +1147,7 @@ def run(res, tier):
                        "same values, key lookups and checked arithmetic never unwrapped, destination metadata defined on every success return of out-of-place operations (interprocedural "
                        "summary), and equality fast paths consistent with the ordering branches that follow them. Slot values, error magnitudes and the numeric invariant "
                        "log_delta + log_budget <= max_k are not decided.")
+    res.rule("CK-15", "an operation returning a new owned ciphertext built from a ciphertext parameter allocates it with that parameter's rank")
     res.rule("CK-14", "a limb accessor indexed by the counter of enumerate() over another container is bounded by take / zip / a comparison")
     res.rule("CK-13", "a core / HAL operation that receives a znx plaintext parameter of a CKKS operation is dominated by ensure_base2k_match")
     res.rule("CK-12", "value-preserving operations store a log_delta that does not exceed the log_delta of any operand they read (in-place forms: of dst itself too)")
@@ -1158,6 +1189,8 @@ def run(res, tier):
         res.floor("CK-9", "ct x pt offset derivations", n9p, 2)
         n10 = ck10(p, res)
         res.floor("CK-10", "plaintext alignment queries", n10, 4)
+        n15 = ck15(p, res)
+        res.floor("CK-15", "operations returning an owned ciphertext built from a parameter", n15, 1)
         n14 = ck14(p, res)
         res.floor("CK-14", "enumerate-indexed limb accessors", n14, 4)
         n13 = ck13(p, res)
